@@ -208,6 +208,13 @@ def has_f2_atom(c):
                for o in c['oh'])
 
 
+def class_state(b):
+    """The state of the user's classes that a dump could leave behind: the
+    names in their namespaces and the class-level _yatiml_defaults."""
+    return {n: (sorted(vars(k)), repr(vars(k).get('_yatiml_defaults')))
+            for n, k in b.classes.items()}
+
+
 def observe_dump(c):
     ctx = loadreplay.ctx()
     y = ctx['yatiml']
@@ -217,6 +224,7 @@ def observe_dump(c):
     del modelgen.LOG[:]
     before_abs = b.abstract(obj)
     before_shape = identity_shape(obj)
+    before_cls = class_state(b)
     o = {}
     try:
         text = dumps(obj)
@@ -227,7 +235,8 @@ def observe_dump(c):
         return o, obj, b
     o['swelog'] = [[k, d, a] for k, d, a, _ in modelgen.LOG if k == 'swe']
     o['unchanged'] = (same_abstract(before_abs, b.abstract(obj)) and
-                      before_shape == identity_shape(obj))
+                      before_shape == identity_shape(obj) and
+                      before_cls == class_state(b))
     try:
         o['text2'] = dumps(obj)
     except Exception as e:  # noqa
